@@ -106,6 +106,167 @@ pub fn run(name: &str) -> R {
             }
             Ok("40 rounds x 200 steps agree with the model".into())
         }
+        // F5d (C11): remove_stream frees a mini chain with unchecked MiniFAT indexing; the stream's start
+        // sector is not validated when the file is opened
+        "c11_remove_stream_mini_start_out_of_range" => {
+            let mut c = CompoundFile::create_with_version(Version::V3, Cursor::new(Vec::new())).unwrap();
+            { let mut s = c.create_stream("/s").unwrap(); s.write_all(&[7u8; 10]).unwrap(); }
+            let mut img = c.into_inner().into_inner();
+            // directory sector is sector 1; entry 1 is "/s"; start sector field at +116
+            le32_patch(&mut img, 2 * 512 + 128 + 116, 1000);
+            let mut c = match CompoundFile::open(Cursor::new(img)) {
+                Ok(c) => c,
+                Err(e) => return Some(Ok(format!("open refused: {e}"))),
+            };
+            let r = c.remove_stream("/s");
+            Ok(format!("remove_stream returned {:?} (no panic)", r.map_err(|e| e.to_string())))
+        }
+        // F5e (C11): a cyclic mini chain (each mini sector pointed to once, so open accepts it); freeing it
+        // truncates the MiniFAT under the walk
+        "c11_remove_stream_mini_cycle" => {
+            let mut c = CompoundFile::create_with_version(Version::V3, Cursor::new(Vec::new())).unwrap();
+            { let mut s = c.create_stream("/s").unwrap(); s.write_all(&[7u8; 100]).unwrap(); }
+            let mut img = c.into_inner().into_inner();
+            let minifat_sector = u32::from_le_bytes(img[60..64].try_into().unwrap()) as usize;
+            // mini chain 0 -> 1 -> END becomes 0 -> 1 -> 0
+            le32_patch(&mut img, (minifat_sector + 1) * 512 + 4, 0);
+            let mut c = match CompoundFile::open(Cursor::new(img)) {
+                Ok(c) => c,
+                Err(e) => return Some(Ok(format!("open refused: {e}"))),
+            };
+            let r = c.remove_stream("/s");
+            Ok(format!("remove_stream returned {:?} (no panic)", r.map_err(|e| e.to_string())))
+        }
+        // F5f (C11): a version-4 root entry may claim any 64-bit mini stream length (multiple of 64); the next mini
+        // sector allocation adds 64 to it
+        "c11_v4_root_stream_len_near_u64_max" => {
+            let mut c = CompoundFile::create_with_version(Version::V4, Cursor::new(Vec::new())).unwrap();
+            { let mut s = c.create_stream("/a").unwrap(); s.write_all(&[1u8; 10]).unwrap(); }
+            let mut img = c.into_inner().into_inner();
+            let dir_start = u32::from_le_bytes(img[48..52].try_into().unwrap()) as usize;
+            let off = (dir_start + 1) * 4096 + 120;
+            img[off..off + 8].copy_from_slice(&0xFFFF_FFFF_FFFF_FFC0u64.to_le_bytes());
+            let mut c = match CompoundFile::open(Cursor::new(img)) {
+                Ok(c) => c,
+                Err(e) => return Some(Ok(format!("open refused: {e}"))),
+            };
+            let r = c.create_stream("/s").and_then(|mut s| {
+                s.write_all(&[7u8; 10])?;
+                s.flush()
+            });
+            Ok(format!("create+write returned {:?} (no panic)", r.map_err(|e| e.to_string())))
+        }
+        // F9 (C15): a create / write 100 bytes / remove cycle must not grow the file from the second repetition on
+        "c15_small_stream_cycle_does_not_grow" => {
+            let mut out = Vec::new();
+            for version in [Version::V3, Version::V4] {
+                let store = Shared::default();
+                let mut c = CompoundFile::create_with_version(version, store.clone()).unwrap();
+                let mut sizes = Vec::new();
+                for _ in 0..6 {
+                    { let mut s = c.create_stream("/s").unwrap(); s.write_all(&[7u8; 100]).unwrap(); }
+                    c.remove_stream("/s").unwrap();
+                    c.flush().unwrap();
+                    sizes.push(store.0.borrow().get_ref().len());
+                }
+                if sizes[1..].iter().any(|&x| x != sizes[1]) {
+                    return Some(Err(format!("{version:?}: file sizes after each repetition: {sizes:?}")));
+                }
+                out.push(format!("{version:?}: {sizes:?}"));
+            }
+            Ok(out.join("; "))
+        }
+        // F4 (C08): bytes gained by set_len read as zero after shrink-then-grow, and when freed mini sectors
+        // or sector tails are reused
+        "c08_grow_after_shrink_reads_zero" => {
+            for version in [Version::V3, Version::V4] {
+                for (len, small, back) in [(60u64, 10u64, 60u64), (9000, 5000, 9000), (100, 70, 128), (5000, 4097, 8000)] {
+                    let mut c = CompoundFile::create_with_version(version, Cursor::new(Vec::new())).unwrap();
+                    let mut s = c.create_stream("/s").unwrap();
+                    s.write_all(&vec![0xAAu8; len as usize]).unwrap();
+                    s.set_len(small).unwrap();
+                    s.set_len(back).unwrap();
+                    s.flush().unwrap();
+                    drop(s);
+                    let got = read_all(&mut c, "/s").unwrap();
+                    if got.len() as u64 != back || got[small as usize..].iter().any(|&b| b != 0) {
+                        let bad = got[small as usize..].iter().position(|&b| b != 0).unwrap_or(0) as u64 + small;
+                        return Some(Err(format!("{version:?}: write {len} x 0xAA, set_len({small}), set_len({back}): byte {bad} reads {:#x}", got[bad as usize])));
+                    }
+                }
+            }
+            Ok("shrink-then-grow exposes only zeros".into())
+        }
+        "c08_reused_mini_sector_reads_zero" => {
+            let mut c = CompoundFile::create_with_version(Version::V3, Cursor::new(Vec::new())).unwrap();
+            { let mut s = c.create_stream("/keep").unwrap(); s.write_all(&[1u8; 64]).unwrap(); }
+            { let mut s = c.create_stream("/a").unwrap(); s.write_all(&[0xAAu8; 128]).unwrap(); }
+            { let mut s = c.create_stream("/last").unwrap(); s.write_all(&[2u8; 64]).unwrap(); }
+            c.remove_stream("/a").unwrap();
+            { let mut s = c.create_stream("/b").unwrap(); s.set_len(100).unwrap(); }
+            let got = read_all(&mut c, "/b").unwrap();
+            if got.len() != 100 || got.iter().any(|&b| b != 0) {
+                return Some(Err(format!("fresh stream grown to 100 bytes reads {:#x} at byte {}", got.iter().find(|&&b| b != 0).unwrap(), got.iter().position(|&b| b != 0).unwrap())));
+            }
+            Ok("reused mini sectors read as zero".into())
+        }
+        // regression net for the zeroing repair: random write / set_len / remove histories on several streams against
+        // a byte-vector model in which set_len pads with zeros; sizes straddle the 64, 512 and 4096 boundaries
+        "c08_random_resize_vs_model" => {
+            let mut seed: u64 = 0xD1B54A32D192ED03;
+            let mut next = move || { seed ^= seed << 13; seed ^= seed >> 7; seed ^= seed << 17; seed };
+            let sizes = [0u64, 1, 10, 63, 64, 65, 100, 128, 500, 512, 513, 1000, 4000, 4095, 4096, 4097, 5000, 8192, 9000];
+            for round in 0..30 {
+                let version = if round % 2 == 0 { Version::V3 } else { Version::V4 };
+                let mut c = CompoundFile::create_with_version(version, Cursor::new(Vec::new())).unwrap();
+                let mut model: std::collections::BTreeMap<String, Vec<u8>> = Default::default();
+                for step in 0..120 {
+                    let name = format!("s{}", next() % 4);
+                    let path = format!("/{name}");
+                    match next() % 5 {
+                        0 => {
+                            if model.remove(&name).is_some() { c.remove_stream(&path).unwrap(); }
+                        }
+                        1 | 2 => {
+                            let n = sizes[(next() % sizes.len() as u64) as usize];
+                            if !model.contains_key(&name) { c.create_stream(&path).unwrap(); model.insert(name.clone(), Vec::new()); }
+                            let mut s = c.open_stream(&path).unwrap();
+                            s.set_len(n).unwrap();
+                            model.get_mut(&name).unwrap().resize(n as usize, 0);
+                        }
+                        _ => {
+                            let n = sizes[(next() % sizes.len() as u64) as usize] as usize;
+                            let fill = (next() % 255) as u8 + 1;
+                            if !model.contains_key(&name) { c.create_stream(&path).unwrap(); model.insert(name.clone(), Vec::new()); }
+                            let m = model.get_mut(&name).unwrap();
+                            let at = if m.is_empty() { 0 } else { (next() % (m.len() as u64 + 1)) as usize };
+                            let mut s = c.open_stream(&path).unwrap();
+                            s.seek(SeekFrom::Start(at as u64)).unwrap();
+                            s.write_all(&vec![fill; n]).unwrap();
+                            if m.len() < at + n { m.resize(at + n, 0); }
+                            m[at..at + n].iter_mut().for_each(|b| *b = fill);
+                        }
+                    }
+                    if step % 10 == 9 {
+                        if step % 30 == 29 {
+                            let img = c.into_inner().into_inner();
+                            c = match CompoundFile::open_strict(Cursor::new(img)) {
+                                Ok(c) => c,
+                                Err(e) => return Some(Err(format!("round {round} step {step}: strict reopen failed: {e}"))),
+                            };
+                        }
+                        for (k, v) in model.iter() {
+                            let got = read_all(&mut c, &format!("/{k}")).unwrap();
+                            if &got != v {
+                                let i = got.iter().zip(v.iter()).position(|(a, b)| a != b).unwrap_or(got.len().min(v.len()));
+                                return Some(Err(format!("round {round} step {step}: /{k} differs from the model at byte {i} (lengths {} vs {})", got.len(), v.len())));
+                            }
+                        }
+                    }
+                }
+            }
+            Ok("30 rounds x 120 steps agree with the model".into())
+        }
         _ => return None,
     })
 }
@@ -118,3 +279,13 @@ fn read_all<F: Read + Seek>(c: &mut CompoundFile<F>, path: &str) -> std::io::Res
     s.read_to_end(&mut v)?;
     Ok(v)
 }
+
+/// backing store whose size can be observed while the compound file is open
+#[derive(Clone, Default)]
+struct Shared(std::rc::Rc<std::cell::RefCell<Cursor<Vec<u8>>>>);
+impl Read for Shared { fn read(&mut self, b: &mut [u8]) -> std::io::Result<usize> { self.0.borrow_mut().read(b) } }
+impl Write for Shared {
+    fn write(&mut self, b: &[u8]) -> std::io::Result<usize> { self.0.borrow_mut().write(b) }
+    fn flush(&mut self) -> std::io::Result<()> { Ok(()) }
+}
+impl Seek for Shared { fn seek(&mut self, p: SeekFrom) -> std::io::Result<u64> { self.0.borrow_mut().seek(p) } }
